@@ -34,7 +34,7 @@ import warnings
 
 import numpy as np
 
-from runtime.common import Recorder, close, use_repo
+from runtime.common import Recorder, close, use_repo, rot_frame
 
 RULE = ("A: grid of (n,p,k,scale) per penalty function; B: grid of (detector, n, p, scale, other hyper-parameters) fits; C: tuned fits "
         "over (detector, n, p, level, hyper-parameters, seed); D: (cost, series, min_segment_length) with a ladder of penalties. "
@@ -209,7 +209,7 @@ def fit_value(name, s, hp, X):
     with warnings.catch_warnings():
         warnings.simplefilter("ignore")
         det = make(s, hp)
-        det.fit(pd.DataFrame(X))
+        det.fit(rot_frame(X, 4))
     return float(getattr(det, attr))
 
 
@@ -264,7 +264,7 @@ def tuned(name, hp, level, X):
     import pandas as pd
     from skchange.anomaly_detectors import CircularBinarySegmentation
     from skchange.change_detectors import MovingWindow, SeededBinarySegmentation
-    df = pd.DataFrame(X)
+    df = rot_frame(X, 5)
     with warnings.catch_warnings():
         warnings.simplefilter("ignore")
         if name == "MovingWindow":
@@ -352,7 +352,7 @@ def count_changepoints(kind, X, m, beta, via):
     from skchange.change_detectors import PELT
     n, p = X.shape
     det = PELT(cost=make_cost(kind), penalty_scale=beta / (2 * p * lg(n)), min_segment_length=m)
-    return len(np.asarray(det.fit_predict(pd.DataFrame(X))).reshape(-1))
+    return len(np.asarray(det.fit_predict(rot_frame(X, 6))).reshape(-1))
 
 
 def check_monotone(kind, X, m, via):
